@@ -3,6 +3,7 @@ package c03
 import (
 	"bytes"
 	"crypto/ed25519"
+	"encoding/hex"
 	"fmt"
 	"os"
 	"sort"
@@ -31,10 +32,20 @@ type msg struct {
 
 func (m msg) String() string { return fmt.Sprintf("c%d:%s(%d)", m.Conn, m.Kind, m.Arg) }
 
-var startKinds = []string{"start", "start", "start", "start", "start-keylen-0", "start-keylen-1", "start-keylen-31", "start-keylen-33", "start-no-key", "start-method-unknown"}
+var startKinds = []string{"start", "start", "start", "start", "start-low-order-point", "start-low-order-point", "start-keylen-0", "start-keylen-1", "start-keylen-31", "start-keylen-33", "start-no-key", "start-method-unknown"}
 var finishKinds = []string{"finish-genuine", "finish-genuine", "finish-genuine", "finish-wrong-key", "finish-stale", "finish-reordered-material", "finish-replayed", "finish-unknown-name",
 	"finish-accessory-name", "finish-retired-key", "finish-retired-key", "finish-genuine-late", "finish-genuine-late", "finish-seal-zero-key", "finish-seal-random-key", "finish-seal-wrong-nonce", "finish-short", "finish-absent", "finish-garbage-tlv", "finish-empty-signature"}
 var otherKinds = []string{"unknown-step", "empty-body", "garbage", "replay-whole-exchange", "replay-whole-exchange", "rekey-stored", "rekey-stored"}
+
+var lowOrder = []string{
+	"0000000000000000000000000000000000000000000000000000000000000000",
+	"0100000000000000000000000000000000000000000000000000000000000000",
+	"e0eb7a7c3b41b8ae1656e3faf19fc46ada098deb9c32b1fd866205165f49b800",
+	"5f9c95bca3508c24b1d0b1559c83ef5b04445cc4581c8e86d8224eddd09f1157",
+	"ecffffffffffffffffffffffffffffffffffffffffffffffffffffffffffff7f",
+	"edffffffffffffffffffffffffffffffffffffffffffffffffffffffffffff7f",
+	"eeffffffffffffffffffffffffffffffffffffffffffffffffffffffffffff7f",
+}
 
 type exchange struct {
 	v  *refctl.VerifyState
@@ -96,6 +107,10 @@ func (w *world) send(m msg) (label string, err error) {
 		items := []refctl.Item{{Tag: refctl.TagState, Value: []byte{1}}}
 		key := v.EphPublic
 		switch m.Kind {
+		case "start-low-order-point":
+			// 32 bytes, so the length check passes; the Diffie-Hellman result with such a point is all zero (or an
+			// error, depending on the curve library): the exchange cannot be completed by anybody
+			key, _ = hex.DecodeString(lowOrder[m.Arg%len(lowOrder)])
 		case "start-keylen-0":
 			key = []byte{}
 		case "start-keylen-1":
@@ -123,7 +138,7 @@ func (w *world) send(m msg) (label string, err error) {
 			m2, perr := v.HandleVerifyM2(resp.Body, nil)
 			if perr == nil && m2.State == 2 && !m2.HasError {
 				if m.Kind != "start" {
-					return label, fmt.Errorf("start request %s was accepted (M2 with accessory key)", m.Kind)
+					return label, fmt.Errorf("start request %s was accepted (M2 with accessory key that opens under the controller's key)", m.Kind)
 				}
 				// the accessory proves its identity with its long-term key
 				info := append(append(append([]byte{}, m2.AccEph...), []byte(m2.AccID)...), v.EphPublic...)
@@ -504,7 +519,9 @@ func TestC03Regress(t *testing.T) {
 			}
 		}
 		labels, err := runHistory(seed, c.nstored, nconns, c.ms)
-		stats.Case(stats.Hash("regress", i), true, []string{"regress"}, func() interface{} { return map[string]interface{}{"what": c.what, "messages": fmt.Sprint(c.ms), "outcomes": labels} })
+		stats.Case(stats.Hash("regress", i), true, []string{"regress"}, func() interface{} {
+			return map[string]interface{}{"what": c.what, "messages": fmt.Sprint(c.ms), "outcomes": labels}
+		})
 		if err != nil {
 			stats.Fail("TestC03Regress", err.Error(), c.what)
 			t.Errorf("%s: %v", c.what, err)
